@@ -242,6 +242,7 @@ func tofileWorld(rc *RunCtx) {
 		rc.Reseed(op.Uid)
 		rc.opsKind[op.Kind]++
 		rc.Logf("op %d uid=%d %s a=%d b=%d c=%d", i, op.Uid, op.Kind, op.A, op.B, op.C)
+		rc.MaybeGC()
 		switch op.Kind {
 		case "pub":
 			w.opPub(op)
